@@ -108,6 +108,8 @@ def _sig_backpressure(case, params):
     return (case.get("kind") in ("data_after_close", "close_overrun", "receive_stuck") and "wp" in case.get("tokens", []))
 
 
+BACKPRESSURE_TIMING_KINDS = ("close_overrun", "receive_stuck")
+
 SIGNATURES = {
     "close_under_write_backpressure": _sig_backpressure,
     "server_close_code_1000_without_peer_close": _sig_server_close_vs_receive,
@@ -782,8 +784,15 @@ def check_batch(ctx, exe, world, batch, suite):
                     ctx.disagreement(suite, {"cfg": cfg.to_json(), "tokens": applied, "burst": j}, a, b)
                     break
         seen = set()
+        outside_model = cfg.wlimit or "wp" in applied or "wr" in applied
         for kind, text, extra, upto in viol:
             if kind in seen:
+                continue
+            if outside_model and kind in BACKPRESSURE_TIMING_KINDS:
+                # write-side back-pressure is not among the property's actors: while the transport refuses writes,
+                # close() waits in send_frame's drain (outside the close timeout, before it wakes a blocked receive()).
+                # Only the safety part (wire, transport, close code, termination after the drop) is checked there.
+                ctx.count("backpressure-timing-observation:" + kind)
                 continue
             seen.add(kind)
             case = _case_dict(cfg, applied[:upto], kind, extra)
